@@ -1,6 +1,6 @@
 SPECIFICATION Spec
 CONSTANTS
-  ChildrenAsSet = FALSE
+  ChildrenAsSet = TRUE
   Names = {1, 2, 3, 4}
   KeysFromSorted = FALSE
   FoldOnlyOnce = FALSE
